@@ -176,6 +176,9 @@ type World struct {
 	pointDelays  []int64 // schedule-point delay vector (virtual ns)
 	pointCalls   atomic.Int64
 	pointPending atomic.Int64
+	armMu        sync.Mutex
+	arms         []pointArm
+	armed        atomic.Int64
 }
 
 // New creates the world; it must be called inside the bubble. It installs the
@@ -208,10 +211,45 @@ func New(routerID string, pointDelays []int64) (*World, error) {
 func (w *World) point(name string) {
 	i := w.pointCalls.Add(1) - 1
 	d := w.pointDelays[int(i)%len(w.pointDelays)]
+	if w.armed.Load() > 0 {
+		w.armMu.Lock()
+		for k := range w.arms {
+			a := &w.arms[k]
+			if a.name != name || a.done {
+				continue
+			}
+			if a.skip > 0 {
+				a.skip--
+				continue
+			}
+			a.done = true
+			w.armed.Add(-1)
+			d = max(d, a.d)
+		}
+		w.armMu.Unlock()
+	}
 	if d <= 0 {
 		return
 	}
 	Spin(d * 4)
+}
+
+type pointArm struct {
+	name string
+	skip int
+	d    int64
+	done bool
+}
+
+// Arm makes the (skip+1)-th call of the named schedule point from now on busy-
+// wait d x ~4 microseconds: a targeted delay, where the delay vector given to
+// New is indexed by the global call count. The world must have been created
+// with a non-empty delay vector ([]int64{0} will do) so that the hook is set.
+func (w *World) Arm(name string, skip int, d int64) {
+	w.armMu.Lock()
+	w.arms = append(w.arms, pointArm{name: name, skip: skip, d: d})
+	w.armMu.Unlock()
+	w.armed.Add(1)
 }
 
 // Spin busy-waits in real time (see memnet.Spin).
